@@ -4,6 +4,11 @@ pub mod verif
     use super::*;
 
     /*  An empty file-state table, for harness-side models of directory::init. */
+    pub fn empty_table_at<SystemType : System>(system : SystemType, path : String) -> CurrentFileStates<SystemType>
+    {
+        CurrentFileStates::from_inside(system, path, CurrentFileStatesInside { file_states : HashMap::new() })
+    }
+
     pub fn empty_table<SystemType : System>(system : SystemType) -> CurrentFileStates<SystemType>
     {
         CurrentFileStates::from_inside(system, String::new(), CurrentFileStatesInside { file_states : HashMap::new() })
